@@ -226,7 +226,48 @@ func neighbours(v hx.Value, rng *rand.Rand) []hx.Value {
 }
 
 var otherClassValues = []hx.Value{nil, int64(0), int64(9007199254740992), int64(9007199254740993), float64(9007199254740992),
-	float64(9223372036854775808), int64(math.MaxInt64), int64(math.MinInt64), 0.5, "", "a", []byte{}, []byte("a")}
+	float64(9223372036854775808), float64(18446744073709551615), int64(math.MaxInt64), int64(math.MinInt64), 0.5, "", "a", []byte{}, []byte("a"), int64(1), int64(70000), 1.5}
+
+// goTypedKey gives the key in other Go types the Key documentation accepts, without changing its meaning.
+func goTypedKey(k []hx.Value, salt int) sqlittle.Key {
+	out := make(sqlittle.Key, len(k))
+	for i, v := range k {
+		out[i] = v
+		switch x := v.(type) {
+		case int64:
+			switch (salt + i) % 5 {
+			case 0:
+				out[i] = int(x)
+			case 1:
+				if x >= math.MinInt32 && x <= math.MaxInt32 {
+					out[i] = int32(x)
+				}
+			case 2:
+				if x >= 0 {
+					out[i] = uint(x)
+				}
+			case 3:
+				if x >= 0 && x <= math.MaxUint32 {
+					out[i] = uint32(x)
+				}
+			default:
+				if x == 0 || x == 1 {
+					out[i] = x == 1
+				}
+			}
+		case float64:
+			switch {
+			case x == 9223372036854775808:
+				out[i] = []interface{}{uint(1 << 63), uint(1<<63 + 5), uint(1<<63 + 1024)}[(salt+i)%3]
+			case x == 18446744073709551615:
+				out[i] = uint(math.MaxUint64)
+			case float64(float32(x)) == x && (salt+i)%2 == 0:
+				out[i] = float32(x)
+			}
+		}
+	}
+	return out
+}
 
 func C03(run *hx.Run) {
 	run.Rule = "for every index sqlittle lists (IndexedSelectEq) and every index-backed or WITHOUT ROWID primary key (PKSelect), for every prefix length 0..n: keys = distinct stored key tuples (sampled per index) plus single-column mutations (+-1, same number in the other numeric class, case swaps, trailing space/tab, shorter/longer, text<->blob, 2^53 and 2^63 neighbours, NULL, other storage classes); expected = SQLite's SELECT ... WHERE (+k) COLLATE c IS ? AND ... [AND partial] ORDER BY <index order>. distinct = distinct (database, index, key) triples; non-trivial = all (each is a b-tree search)"
@@ -377,11 +418,17 @@ func C03(run *hx.Run) {
 						var err error
 						var pm string
 						op := "IndexedSelectEq"
+						// on the reverse pass the key is given in another Go type with the same meaning (int, int32,
+						// uint, uint32, float32, bool; an unsigned value beyond int64 means the REAL it rounds to)
+						gokey := sqlittle.Key(k)
+						if oi >= len(keys) {
+							gokey = goTypedKey(k, oi)
+						}
 						if tg.pk {
 							op = "PKSelect"
-							got, err, pm = collectPK(db, t.Name, sqlittle.Key(k), c.cols)
+							got, err, pm = collectPK(db, t.Name, gokey, c.cols)
 						} else {
-							got, err, pm = collectIndexedEq(db, t.Name, c.ix.Name, sqlittle.Key(k), c.cols)
+							got, err, pm = collectIndexedEq(db, t.Name, c.ix.Name, gokey, c.cols)
 						}
 						run.Eval(1)
 						base := fmt.Sprintf("C03/%s/%s/%s", op, t.Name, c.ix.Name)
